@@ -111,8 +111,9 @@ def replay(v, repo, cache):
     if name and name.startswith("probe:"):
         import frame
         cases = frame.NUMBER_PROBES.get(name[6:])
-    elif name and name in ADAPTERS and v.get("playback") is not None:
-        cases = ADAPTERS[name](v["playback"], v)
+    elif name and name.split(":")[0] in ADAPTERS and v.get("playback") is not None:
+        v = dict(v, adapter_param=name.split(":", 1)[1] if ":" in name else None)
+        cases = ADAPTERS[name.split(":")[0]](v["playback"], v)
     elif v.get("probe"):
         cases = v["probe"]
     if not cases:
@@ -201,3 +202,25 @@ def _escape_python_char(vals, v):
 @adapter("escape_toml_char")
 def _escape_toml_char(vals, v):
     return _char_case(vals, 'std.manifestTomlEx({a: std.char(%d)}, "")', "toml_value_equals")
+
+
+def _radix_shaped(vals, v, fn):
+    k = int(v["adapter_param"])
+    cp = u(vals, 0)
+    if cp > 0x10FFFF or 0xD800 <= cp <= 0xDFFF:
+        return []
+    body = "1" * k + "\\u%04x" % cp + "1" if cp < 0x10000 else None
+    if body is None:
+        hi, lo = 0xD800 + ((cp - 0x10000) >> 10), 0xDC00 + ((cp - 0x10000) & 0x3FF)
+        body = "1" * k + "\\u%04x\\u%04x" % (hi, lo) + "1"
+    return [{"source": 'std.%s("%s")' % (fn, body), "oracle": {"oracle": "no_crash"}}]
+
+
+@adapter("radix_hex_shaped")
+def _radix_hex_shaped(vals, v):
+    return _radix_shaped(vals, v, "parseHex")
+
+
+@adapter("radix_oct_shaped")
+def _radix_oct_shaped(vals, v):
+    return _radix_shaped(vals, v, "parseOctal")
